@@ -96,3 +96,31 @@ def cone_rule(repo, chk, R):
         R.run('DEPS', template_check, repo, chk, 'DEPS', q, name, what, text)
         n += 1
     chk.cone = {'depth': depth, 'functions': len(cone), 'compared': n, 'already_compared_by_own_rules': len(set(cone) & done), 'without_reference': without, 'functions_without_reference': missing}
+
+
+TRANSPARENT_DECORATORS = ('staticmethod', 'classmethod', 'property', 'abstractmethod', 'jit', 'njit', 'for_examples', 'wraps', 'no_grad', 'inference_mode')
+
+
+def decorator_rule(repo, chk):
+    """DECOR: a decorator replaces the function by whatever it returns (a memoising wrapper, a retry loop, a cache keyed on
+    part of the arguments). The functions the property rests on carry only decorators that hand the call through."""
+    import ast
+    from ..core import dotted
+    n = 0
+    first = None
+    for q in sorted(chk.functions):
+        fi = repo.funcs.get(q)
+        if fi is None:
+            continue
+        first = first or fi
+        for d in fi.node.decorator_list:
+            nm = dotted(d.func if isinstance(d, ast.Call) else d) or '?'
+            if nm.split('.')[-1] in TRANSPARENT_DECORATORS or nm.endswith('.setter'):
+                continue
+            n += 1
+            chk.ob('DECOR', fi, d, 'functions in scope are called as written (no wrapping decorator)', False,
+                   '@%s wraps %s: calls go through the wrapper, whose result need not be the function\'s' % (nm, fi.name),
+                   construct='decorator %s on %s' % (nm.split('.')[-1], fi.name), robust=True)
+    if first is not None:
+        chk.ob('DECOR', first, first.node, '%d functions in scope carry only transparent decorators (%s)' % (len(chk.functions), ', '.join(TRANSPARENT_DECORATORS[:6])),
+               n == 0, construct='decorators', robust=True)
